@@ -75,7 +75,7 @@ Section ChainOps.
     - unfold assert_directory_verifies, get_file_entry_dict.
       destruct (load_manifests_for_path L decompress pgp_verify rounds_fuel w l p true true) as [l1|] eqn:El; cbn [bind]; [|discriminate].
       match goal with |- context [bind (fold_left ?F ?a ?b) _] => destruct (fold_left F a b) as [ed|]; cbn [bind]; [|discriminate] end.
-      destruct (walk_verify L (nodes_fuel w) w _ (pjoin rootdir p) p [] ed true []) as [[[[i e] r] lg]|]; cbn [bind]; [|discriminate].
+      destruct (walk_verify L (nodes_fuel w) w _ (walk_top p) p [] ed true []) as [[[[i e] r] lg]|]; cbn [bind]; [|discriminate].
       destruct (fold_left _ e (Ok (r, lg))) as [rr|]; cbn [bind]; [|discriminate].
       intros H. inversion H; subst. eapply loads_inv; eassumption.
   Qed.
